@@ -15,7 +15,7 @@ CHECKS = {
              "validated and agree on the reader state they reset. Value equality and primitive arithmetic are not decided. Also (rounds 3-4): a mode switch of the primitive codec on one side only; members allocated without a value written as themselves; fields written as held (no filtered/sliced copy); the constructed-value flush passes the stored tag and the octets untouched.",
         note="Reader/writer shapes followed: positional reads, sub-readers, while-reader repetition, tag dispatch decided by a (class, number) set algebra, optional-by-peek, "
              "guard clauses, private helpers that take the reader/writer (predicates, header-returning, list/tuple-returning); an unknown shape is an ANALYSIS-ERROR "
-             "for that class, never a verdict. Spellings are normalised first (sa/desugar.py: match, constant-table loops, generators, walrus, carriers). 110 of 113 behaviour-preserving variants leave every check silent; three table-interpreting decoders are an ANALYSIS-ERROR here (DESIGN.md 0d, 10).",
+             "for that class, never a verdict. Spellings are normalised first (sa/desugar.py: match, constant-table loops, generators, walrus, carriers). 169 of 177 behaviour-preserving variants leave every check silent; eight (DESIGN.md 0e) are an ANALYSIS-ERROR here (DESIGN.md 0d, 10).",
         ref="DESIGN.md section 5 C01, section 4 Engine B"),
     "C03": dict(
         technique="TLV writer-grammar extraction compared with an independent RFC 4511 / RFC 2696 table",
@@ -234,9 +234,11 @@ def main():
                  "variants it is recorded to report, behaviour-preserving variants it must stay silent on), each applied to a scratch copy of the current working "
                  "tree; that self-test is written to the evidence and never changes the verdict. 18 genuine defects were repaired by fix: commits in /repo "
                  "(6de8880..7a61bad; F15 was found by the C17 typestate analysis, F16 after Engine C's codec catalogue was corrected) and 2 are known findings "
-                 "pinned by tests; see /verif/known_findings.txt and DESIGN.md sections 0-0d, 2 and 10. 329 seeded variants are kept under /verif/seeded: 216 "
-                 "property-breaking (4 rounds of independent sub-agents plus the 18 reverts of fix commits), all reported by at least one check; 113 "
-                 "behaviour-preserving, 110 silent in every check and 3 (table-interpreting decoders) an ANALYSIS-ERROR in C01/C04, none a VIOLATION.",
+                 "pinned by tests; see /verif/known_findings.txt and DESIGN.md sections 0-0e, 2 and 10. 501 seeded variants are kept under /verif/seeded (6 rounds of "
+                 "independent sub-agents plus the 18 reverts of fix commits): 324 property-breaking, 321 reported by at least one check (295 by the check of the "
+                 "property they were written against; the 3 misses are named in DESIGN.md 0e); 177 behaviour-preserving, 169 silent in every check and 8 an "
+                 "ANALYSIS-ERROR (exit 2, no verdict) in the checks whose extractor cannot follow them (table-interpreting decoders, readers / text kept in "
+                 "helper-object state, a pattern passed as a parameter, a separate value-codec class), none a VIOLATION.",
     }
     with open(os.path.join(VERIF, "MANIFEST.json"), "w") as f:
         json.dump(man, f, indent=1)
